@@ -1454,6 +1454,23 @@ Hwrite(int32 access_id, int32 length, const void *data)
         if (access_rec->posn + length > INT32_MAX - data_off)
             HGOTO_ERROR(DFE_EXCEEDMAX, FAIL);
 
+        /* a gap skipped over by seeking reads as zeros: the bytes there may be left over from an earlier,
+           longer version of the element (Htrunc), so write the zeros out */
+        if (access_rec->posn > data_len) {
+            static const uint8 zeros[512] = {0};
+            int32              gap        = access_rec->posn - data_len;
+
+            if (HPseek(file_rec, data_off + data_len) == FAIL)
+                HGOTO_ERROR(DFE_SEEKERROR, FAIL);
+            while (gap > 0) {
+                int32 n = gap < (int32)sizeof(zeros) ? gap : (int32)sizeof(zeros);
+
+                if (HP_write(file_rec, zeros, n) == FAIL)
+                    HGOTO_ERROR(DFE_WRITEERROR, FAIL);
+                gap -= n;
+            } /* end while */
+        }     /* end if */
+
         /* Update the DD with the new length. Note argument of '-2' for
            the offset parameter means not to change the offset in the DD. */
         if (HTPupdate(access_rec->ddid, -2, access_rec->posn + length) == FAIL)
